@@ -200,6 +200,9 @@ inductive NodeKind
 deriving Repr, DecidableEq, Inhabited
 
 def producerKind : String → Option NodeKind
+  -- (the most frequent ones first: the kernel tries the literals in this order)
+  | "DD_ZERO" | "cuddE" | "cuddT" | "DD_ONE" => some .borrowed
+  | "cuddCacheLookup2Zdd" => some .fresh
   -- CUDD BDD
   | "Cudd_bddAnd" | "Cudd_bddOr" | "Cudd_bddXor" | "Cudd_bddXnor" | "Cudd_bddIte"
   | "Cudd_bddExistAbstract" | "Cudd_bddUnivAbstract" | "Cudd_bddAndAbstract"
@@ -214,9 +217,8 @@ def producerKind : String → Option NodeKind
   -- CUDD ZDD
   | "Cudd_zddDiff" | "Cudd_zddIntersect" | "Cudd_zddUnion" | "Cudd_zddIte" | "cuddZddIte"
   | "Cudd_zddIthVar" | "Cudd_zddSupport" | "Cudd_zddSubset0" | "Cudd_zddSubset1"
-  | "Cudd_zddPortFromBdd" | "Cudd_zddPortToBdd" | "cuddUniqueInterZdd"
-  | "cuddCacheLookup2Zdd" => some .fresh
-  | "Cudd_ReadZddOne" | "Cudd_ReadZero" | "DD_ONE" | "DD_ZERO" | "cuddT" | "cuddE" => some .borrowed
+  | "Cudd_zddPortFromBdd" | "Cudd_zddPortToBdd" | "cuddUniqueInterZdd" => some .fresh
+  | "Cudd_ReadZddOne" | "Cudd_ReadZero" => some .borrowed
   -- Sylvan
   | "sylvan_and" | "sylvan_or" | "sylvan_xor" | "sylvan_imp" | "sylvan_biimp" | "sylvan_equiv"
   | "sylvan_diff" | "sylvan_ite" | "sylvan_exists" | "sylvan_forall" | "sylvan_and_exists"
@@ -250,6 +252,30 @@ def isDerefFn : String → Bool
   | "_decref" | "decref" => true           -- the wrappers' own methods (checked as `refApi`)
   | _ => false
 
+/-- CUDD's non-recursive dereference: the count is decremented and nothing else happens — the node
+is not declared dead, its children keep the references it holds on them.  Right only for a node
+that is handed on alive (`cuddRef(r); …; cuddDeref(r); return r`); a node that is DROPPED after it is
+never reclaimed together with what it refers to. -/
+def isPlainDerefFn : String → Bool
+  | "Cudd_Deref" | "cuddDeref" => true
+  | _ => false
+
+/-- the dereference functions of each back end (the wrappers' own methods aside): a BDD function on
+a ZDD node, or the other way round, corrupts the library's bookkeeping of dead nodes -/
+def allowedDerefs : Backend → List String
+  | .cudd => ["Cudd_RecursiveDeref", "Cudd_IterDerefBdd", "Cudd_Deref", "cuddDeref", "_decref", "decref"]
+  | .cuddZdd => ["Cudd_RecursiveDerefZdd", "Cudd_Deref", "cuddDeref", "_decref", "decref"]
+  | .sylvan => ["sylvan_deref", "decref"]
+  | .buddy => ["bdd_delref", "decref"]
+
+/-- with which of them a handle gives its reference back for good (`__dealloc__`): the one that
+reclaims the node and releases its children -/
+def disposalDerefs : Backend → List String
+  | .cudd => ["Cudd_RecursiveDeref", "Cudd_IterDerefBdd"]
+  | .cuddZdd => ["Cudd_RecursiveDerefZdd"]
+  | .sylvan => ["sylvan_deref"]
+  | .buddy => ["bdd_delref"]
+
 /-- dereference functions that FREE a node whose count drops to zero, and then release its
 children in turn -/
 def isRecursiveDerefFn : String → Bool
@@ -269,6 +295,7 @@ structure NodeSt where
   madeFrom : List Nat := []   -- the node arguments of the call that produced it (it refers to them)
   inCont : Nat := 0           -- references that containers followed on this path hold on the node
   fromCont : Option Nat := none   -- loaded from this container (alive as long as the container refers to it)
+  plainDropped : Bool := false    -- its last reference went away through a NON-recursive dereference and it was not handed on since
 deriving Repr, Inhabited
 
 abbrev PathSt := List NodeSt
@@ -316,7 +343,7 @@ def produceStep (loc : List String) (float : Bool) (s : PathSt) (x : Nat) (fn : 
       let s' := if k == .borrowed then s else
         s.map fun n => if n.protected_ then n else { n with exposed := true }
       let init : Int := if k == .owned then 1 else 0
-      .ok (s'.set ⟨x, k, init, 0, 0, 0, false, false, args, 0, none⟩)
+      .ok (s'.set ⟨x, k, init, 0, 0, 0, false, false, args, 0, none, false⟩)
 
 /-! #### containers -/
 
@@ -428,7 +455,7 @@ def runPathS (loc : List String) (float : Bool) (returnsNode : Bool) :
   | ls, s, cs, ev :: rest =>
     match ev with
     | .param x _ =>
-      runPathS loc float returnsNode ls (s.set ⟨x, .borrowed, 0, 0, 0, 0, false, false, [], 0, none⟩) cs rest
+      runPathS loc float returnsNode ls (s.set ⟨x, .borrowed, 0, 0, 0, 0, false, false, [], 0, none, false⟩) cs rest
     | .produce x fn args =>
       match produceStep loc float s x fn args with
       | .error v => .stop v
@@ -439,7 +466,8 @@ def runPathS (loc : List String) (float : Bool) (returnsNode : Bool) :
       | none => .stop (.bad "ref of an untracked node" x)
       | some n =>
         if float && n.exposed then .stop (.bad "unprotected node used after a node-creating call or a recursive dereference" x) else
-        runPathS loc float returnsNode ls (s.set { n with held := n.held + 1, refs := n.refs + 1 }) cs rest
+        runPathS loc float returnsNode ls
+          (s.set { n with held := n.held + 1, refs := n.refs + 1, plainDropped := false }) cs rest
     | .deref x fn =>
       if !isDerefFn fn then .stop (.bad ("not a dereference function: " ++ fn) x) else
       match s.node? x with
@@ -451,10 +479,12 @@ def runPathS (loc : List String) (float : Bool) (returnsNode : Bool) :
         -- descendant of, or equal to, the released temporary.  Not exposed: a fresh node that was
         -- made FROM `x` (a parent built by the call that took `x` as an argument holds its own
         -- reference on `x`, so `x` does not die)
-        let s1 := s.set { n with held := n.held - 1, derefs := n.derefs + 1 }
+        let pd := isPlainDerefFn fn && decide (n.held - 1 ≤ 0) && n.wraps == 0 && n.inCont == 0
+        let s1 := s.set { n with held := n.held - 1, derefs := n.derefs + 1, plainDropped := pd }
+        -- (`x` itself included: once nothing else holds it, it is freed by the recursive dereference)
         let s2 := if float && isRecursiveDerefFn fn then
             s1.map fun k =>
-              if k.protected_ || k.id == x || k.madeFrom.contains x then k else { k with exposed := true }
+              if k.protected_ || k.madeFrom.contains x then k else { k with exposed := true }
           else s1
         runPathS loc float returnsNode ls s2 cs rest
     | .wrap x =>
@@ -462,7 +492,7 @@ def runPathS (loc : List String) (float : Bool) (returnsNode : Bool) :
       | none => .stop (.bad "wrap of an untracked node" x)
       | some n =>
         if float && n.exposed then .stop (.bad "unprotected node used after a node-creating call or a recursive dereference" x) else
-        runPathS loc float returnsNode ls (s.set { n with wraps := n.wraps + 1 }) cs rest
+        runPathS loc float returnsNode ls (s.set { n with wraps := n.wraps + 1, plainDropped := false }) cs rest
     | .initCall x =>
       match s.node? x with
       | none => .stop (.bad "init of an untracked node" x)
@@ -481,7 +511,8 @@ def runPathS (loc : List String) (float : Bool) (returnsNode : Bool) :
       match s.node? x with
       | none => .stop (.bad "return of an untracked node" x)
       | some n =>
-        if float && n.exposed then .stop (.bad "unprotected node used after a node-creating call or a recursive dereference" x) else .fin s cs
+        if float && n.exposed then .stop (.bad "unprotected node used after a node-creating call or a recursive dereference" x) else
+        .fin (s.set { n with plainDropped := false }) cs     -- handed to the caller alive
     | .retNull => .fin s cs
     | .raise _ => .fin s cs
     | .raiseIn _ _ => .fin s cs
@@ -532,10 +563,12 @@ def runPathS (loc : List String) (float : Bool) (returnsNode : Bool) :
           if float && n.exposed then .stop (.bad "unprotected node used after a node-creating call or a recursive dereference" x) else
           if n.held > 0 then
             -- one reference of this function moves into the container
-            runPathS loc float returnsNode ls (s.set { n with held := n.held - 1, inCont := n.inCont + 1 })
+            runPathS loc float returnsNode ls
+              (s.set { n with held := n.held - 1, inCont := n.inCont + 1, plainDropped := false })
               (setCont cs { k with owned := x :: k.owned, released := false }) rest
           else
-            runPathS loc float returnsNode ls s (setCont cs { k with borrowed := x :: k.borrowed }) rest
+            runPathS loc float returnsNode ls (s.set { n with plainDropped := false })
+              (setCont cs { k with borrowed := x :: k.borrowed }) rest
     | .load x c =>
       match findCont cs c with
       | none => .stop (.bad "load from an untracked container" c)
@@ -543,7 +576,7 @@ def runPathS (loc : List String) (float : Bool) (returnsNode : Bool) :
         if k.freed then .stop (.bad "container used after it was freed" c) else
         -- an element: kept alive by whoever filled the container, until its references are given back
         runPathS loc float returnsNode ls
-          (s.set ⟨x, .borrowed, 0, 0, 0, 0, false, k.released, [], 0, some c⟩) cs rest
+          (s.set ⟨x, .borrowed, 0, 0, 0, 0, false, k.released, [], 0, some c, false⟩) cs rest
     | .passC c fn =>
       match findCont cs c with
       | none => .stop (.bad "an untracked container is handed to a call" c)
@@ -636,6 +669,32 @@ def pathArraysFreed (loc : List String) (m : CMethod) (p : CPath) : Bool :=
   match runPath loc false m.returnsNode [] p.events with
   | .arrayLeak _ => false
   | _ => true
+
+/-- a node whose last reference went away through a non-recursive dereference is dropped: reported
+apart from the balance (`refTraces_noPlainDrop`), like an array that is not freed -/
+def pathPlainDrop (loc : List String) (m : CMethod) (p : CPath) : Bool :=
+  (p.events.any fun e => match e with | .deref _ fn => isPlainDerefFn fn | _ => false) &&
+  match runPathS loc false m.returnsNode [] [] [] p.events with
+  | .fin s _ => s.any (·.plainDropped)
+  | .stop _ => false
+
+/-- every dereference uses a function of the method's back end; `__dealloc__` uses the one that
+reclaims the node -/
+def derefKindsOk (m : CMethod) : Bool :=
+  m.paths.all fun p => p.events.all fun e =>
+    match e with
+    | .deref _ fn | .derefAll _ fn _ | .derefNonNull _ fn _ =>
+      (allowedDerefs m.backend).contains fn &&
+      (m.role != .handleDealloc || (disposalDerefs m.backend).contains fn)
+    | _ => true
+
+/-- how a path ends, for the reviewed lists: the name of an explicit `raise`, the site of an
+exception from a callee, `return` -/
+def endLabel : List CEv → String
+  | [] => "return"
+  | [.raise e] => e
+  | [.raiseIn site _] => site
+  | _ :: r => endLabel r
 
 /-- the path ends by raising `exc` -/
 def endsInRaiseOf (exc : String) : List CEv → Bool
@@ -869,7 +928,7 @@ def handleBased (role : CRole) (es : List CEv) : Bool :=
 /-- One path of `init` / `__dealloc__` / `incref` / `decref` of a back end whose handles carry the
 counter.  Documented exception: `decref(u, _direct=True)` gives a library reference back and
 leaves the counter alone (`dd/_copy.py` uses it to hand a reference over to another handle). -/
-def fieldPathOk (role : CRole) (es : List CEv) : Bool :=
+def fieldPathOkA (assumeDirectDecrefHandsOver : Bool) (role : CRole) (es : List CEv) : Bool :=
   -- a fresh object: Cython zero-initialises the attribute
   let start : FieldSt := if role == .handleInit then { lo := some 0, hi := some 0 } else {}
   match fieldRun start es with
@@ -877,16 +936,29 @@ def fieldPathOk (role : CRole) (es : List CEv) : Bool :=
   | .bad _ => false
   | .done f =>
     (if handleBased role es then
-       (if role == .refDec && hasGuard "_direct" true es then f.delta == 0 else f.delta == netRefs es)
+       (if assumeDirectDecrefHandsOver && role == .refDec && hasGuard "_direct" true es then f.delta == 0
+        else f.delta == netRefs es)
      else !es.any CEv.isFieldWrite) &&
     -- `__dealloc__` may keep everything only when the handle owns nothing
     (role != .handleDealloc || endsInRaise es || netRefs es != 0 || f.hi == some 0) &&
     -- after `init` the counter is known, and it is what was taken
     (role != .handleInit || endsInRaise es || (f.lo == some (netRefs es) && f.hi == some (netRefs es)))
 
-def fieldMethodOk (hasField : Bool) (m : CMethod) : Bool :=
-  if hasField then m.paths.all fun p => fieldPathOk m.role p.events
+/-- NAMED ASSUMPTION `directDecrefHandsOver`: whoever calls `decref(u, _direct=True)` gives back a
+library reference that was taken OUTSIDE the counter of the handle `u` (by `incref` on another
+handle of the same node), so the counter must stay as it is.  True of the only callers in the
+package, `dd/_copy.py` `_load_json` (`Gen.cDirectDecrefUsers`, `directDecref_users`); for any other
+caller the invariant "`_ref` = library references the handle owns" breaks.  Without the assumption
+exactly the `_direct` paths of the two `decref` methods fail (`directDecref_only_exception`). -/
+def assumeDirectDecref : Bool := true
+
+def fieldPathOk (role : CRole) (es : List CEv) : Bool := fieldPathOkA assumeDirectDecref role es
+
+def fieldMethodOkA (a : Bool) (hasField : Bool) (m : CMethod) : Bool :=
+  if hasField then m.paths.all fun p => fieldPathOkA a m.role p.events
   else m.paths.all fun p => !p.events.any CEv.isFieldEv
+
+def fieldMethodOk (hasField : Bool) (m : CMethod) : Bool := fieldMethodOkA assumeDirectDecref hasField m
 
 /-- `Function.__dealloc__`: a path that does not raise gives back exactly one reference (on the
 node attribute), or none — which `fieldPathOk` accepts only where the path conditions say that the
